@@ -57,8 +57,12 @@ pub mod feat {
     pub const STDERR_BEFORE: u32 = 1 << 14;
     pub const EXIT_AFTER: u32 = 1 << 15;
     pub const JUMP_BEFORE: u32 = 1 << 16;
-    pub const N: u32 = 17;
-    pub const NAMES: [&str; 17] = [
+    pub const HEART_ONTO_ITSELF: u32 = 1 << 17;
+    pub const FORWARD_JUMP: u32 = 1 << 18;
+    pub const FIRST_COMMAND_JUMPS: u32 = 1 << 19;
+    pub const RETURN_TO_FIRST: u32 = 1 << 20;
+    pub const N: u32 = 21;
+    pub const NAMES: [&str; 21] = [
         "reads_input",
         "labels_registered_before_read",
         "two_labels_on_one_command",
@@ -76,7 +80,17 @@ pub mod feat {
         "stderr_before_read",
         "program_exit_after_read",
         "jump_before_read",
+        "heart_return_onto_itself",
+        "forward_jump",
+        "first_command_is_jump_source",
+        "heart_return_to_first_command",
     ];
+}
+
+/// Target features count first (rare control-flow coincidences most), then sheer variety.
+fn feature_score(f: u32, target: u32) -> u32 {
+    let rare = feat::HEART_ONTO_ITSELF | feat::FORWARD_JUMP | feat::FIRST_COMMAND_JUMPS | feat::RETURN_TO_FIRST | feat::TWO_LABELS_ONE_COMMAND | feat::BRACE_BEFORE | feat::STACK0_NONEMPTY;
+    (f & target & rare).count_ones() * 1000 + (f & target).count_ones() * 50 + f.count_ones()
 }
 
 pub fn boundary_features(cmds: &[Cmd], stdin: &[u8], budget: u64) -> u32 {
@@ -173,6 +187,19 @@ pub fn boundary_features(cmds: &[Cmd], stdin: &[u8], budget: u64) -> u32 {
             Err(_) => break,
         }
     }
+    // control-flow coincidences anywhere in the run (levels 0 and 1 compile the whole program)
+    if m.probes[probe::RETURN_TO_SELF] > 0 {
+        f |= feat::HEART_ONTO_ITSELF;
+    }
+    if m.probes[probe::FWD_JUMP] > 0 {
+        f |= feat::FORWARD_JUMP;
+    }
+    if m.probes[probe::JUMP_FROM_FIRST] > 0 {
+        f |= feat::FIRST_COMMAND_JUMPS;
+    }
+    if m.probes[probe::RETURN_TO_FIRST] > 0 {
+        f |= feat::RETURN_TO_FIRST;
+    }
     f
 }
 
@@ -258,9 +285,12 @@ impl Property for C03 {
         for _ in 0..rng.usize(2, 4) {
             target |= 1 << rng.below(feat::N as u64);
         }
-        target |= feat::READS;
+        if rng.chance(75) {
+            target |= feat::READS;
+        }
         let mut best: Option<(u32, Vec<Cmd>, Vec<u8>)> = None;
-        let tries = if tier == Tier::Quick { 120 } else { 200 };
+        let rare_control = target & (feat::HEART_ONTO_ITSELF | feat::FORWARD_JUMP | feat::FIRST_COMMAND_JUMPS | feat::RETURN_TO_FIRST) != 0;
+        let tries = if rare_control { 1500 } else if tier == Tier::Quick { 120 } else { 200 };
         for attempt in 0..tries {
             let mut sw = gen::swarm(rng, Flavor::Compile);
             sw.max_d = 400;
@@ -269,8 +299,8 @@ impl Property for C03 {
                 Tier::Quick => 14,
                 Tier::Thorough => *rng.pick(&[8usize, 14, 14, 24, 48]),
             };
-            let control_target = target & (feat::TWO_LABELS_ONE_COMMAND | feat::JUMP_BACK_INTO_PREFIX | feat::HEART_RETURN_AFTER | feat::PENDING_SOURCE) != 0;
-            let goto_pct = if control_target { 70 } else { 20 };
+            let control_target = target & (feat::TWO_LABELS_ONE_COMMAND | feat::JUMP_BACK_INTO_PREFIX | feat::HEART_RETURN_AFTER | feat::PENDING_SOURCE | feat::HEART_ONTO_ITSELF | feat::FORWARD_JUMP | feat::FIRST_COMMAND_JUMPS | feat::RETURN_TO_FIRST) != 0;
+            let goto_pct = if rare_control { 92 } else if control_target { 70 } else { 20 };
             if rng.chance(if target & feat::TWO_LABELS_ONE_COMMAND != 0 { 60 } else { 1 }) {
                 // one command registers two labels before the read; afterwards a jump to the one registered second
                 let a = rng.range(2, 12) as u8;
@@ -310,7 +340,7 @@ impl Property for C03 {
                     }
                     if terminating(&t, &stdin, sc.budget, sc.cap_bits).is_some() && speculation_safe(&t, 128) {
                         let f = boundary_features(&t, &stdin, sc.budget);
-                        let score = (f & target).count_ones() * 4 + f.count_ones();
+                        let score = feature_score(f, target);
                         if best.as_ref().map_or(true, |x| score > x.0) {
                             best = Some((score, t, stdin));
                             sc.set_knob("attempt", attempt as i64);
@@ -389,7 +419,7 @@ impl Property for C03 {
             let stdin = gen::gen_stdin(rng, 30);
             if terminating(&cmds, &stdin, sc.budget, sc.cap_bits).is_some() && speculation_safe(&cmds, 128) {
                 let f = boundary_features(&cmds, &stdin, sc.budget);
-                let score = (f & target).count_ones() * 4 + f.count_ones();
+                let score = feature_score(f, target);
                 if best.as_ref().map_or(true, |b| score > b.0) {
                     best = Some((score, cmds, stdin));
                     sc.set_knob("attempt", attempt as i64);
